@@ -13,7 +13,7 @@ from .common import Failure, f2h, h2f, parse_reply
 
 ID = "C18"
 BIN = "c18"
-PROOF_MODULES = ["Compute.Props.C18", "Compute.Props.C18Review", "Compute.Lemmas.C18Step", "Compute.Lemmas.C18Norm"]
+PROOF_MODULES = ["Compute.Props.C18", "Compute.Props.C18Review", "Compute.Props.C18Default", "Compute.Lemmas.C18Step", "Compute.Lemmas.C18Norm"]
 REQUIRED_THEOREMS = [
     "Cv.C18.valid_inv", "Cv.C18.coherent_inv", "Cv.C18.update_total", "Cv.C18.observational_equality",
     "Cv.C18.new_isSome_iff", "Cv.C18.set_spec", "Cv.C18.update_spec", "Cv.C18.history_inv",
@@ -22,8 +22,15 @@ REQUIRED_THEOREMS = [
     "Cv.C18.modelled_observations_eq", "Cv.C18.sampleP_beta_param", "Cv.C18.sampleP_chisquared_param",
     "Cv.C18.set_total_independent", "Cv.C18.uniform_set_iff", "Cv.C18.discreteuniform_set_iff",
     "Cv.C18.chiSquared_setDof_srctie",
+    # construction route Default (Props/C18Default.lean)
+    "Cv.C18.defaultD_record", "Cv.C18.ChiSquared_default_eq_new", "Cv.C18.defaultD_reachable", "Cv.C18.default_history_inv",
+    "Cv.C18.ChiSquared_default_record", "Cv.C18.Beta_default_record", "Cv.C18.Gamma_default_record",
+    "Cv.C18.Exponential_default_record", "Cv.C18.Gumbel_default_record", "Cv.C18.Binomial_default_record",
+    "Cv.C18.T_default_record",
 ]
-RULE = ("random histories of 1..20 mutations (setters, bulk updates, re-construction; ~30% invalid values; valid "
+RULE = ("start states new(params) / X::default() / X::default() then clone or copy (30% of the histories, plus a corpus line and "
+        "a sample_n + sample_matrix line straight after Default per distribution, each compared with the twin new(default parameters)); "
+        "random histories of 1..20 mutations (setters, bulk updates, re-construction; ~30% invalid values; valid "
         "targets on both sides of the current parameters, bounds entirely above / below the old interval) after a "
         "constructor call, for each of the 13 univariate distributions x 100 (quick) / 400 (thorough) seeds, plus the "
         "witnesses of F32/F35; after every step: record, pdf/pmf at 3 probes, mean, var, 32 seeded draws, 32 seeded "
@@ -93,6 +100,12 @@ SPEC = {
     "uniform": ("ff", ["lower", "upper"], lambda v: v[0] <= v[1]),
 }
 KINDS = sorted(SPEC)
+# `X::default()` is documented to be `X::new(<these>)`
+DEFAULTS = {
+    "bernoulli": [0.5], "beta": [1.0, 1.0], "binomial": [1, 0.5], "chisquared": [1], "discreteuniform": [0, 1],
+    "exponential": [1.0], "gamma": [1.0, 1.0], "gumbel": [0.0, 1.0], "normal": [0.0, 1.0], "pareto": [1.0, 1.0],
+    "poisson": [1.0], "t": [1.0], "uniform": [0.0, 1.0],
+}
 DISCRETE = {"bernoulli", "binomial", "discreteuniform", "poisson"}
 # value class of every parameter
 PCLASS = {
@@ -304,10 +317,27 @@ def gen_history(rng, kind, cover, corpus_steps=None):
     if rng.chance(0.08):
         steps.append(("new", new_args(False)))
         count("ctor-invalid-first")
-    a = new_args(True)
-    steps.append(("new", a))
-    cur = list(a)
+    start = rng.random()
+    if start < 0.7:
+        a = new_args(True)
+        steps.append(("new", a))
+        cur = list(a)
+        count("start-new")
+    else:
+        # construction route `Default` (documented to be new(default parameters)), optionally cloned / copied
+        steps.append(("default",))
+        cur = list(DEFAULTS[kind])
+        count("start-default")
+        if start >= 0.85:
+            steps.append((rng.choice(["clone", "copy"]),))
+            count("start-default-clone")
     for _ in range(nmut):
+        if rng.chance(0.04):
+            steps.append((rng.choice(["clone", "copy", "default"]),))
+            count("mid-" + steps[-1][0])
+            if steps[-1][0] == "default":
+                cur = list(DEFAULTS[kind])
+            continue
         r = rng.random()
         valid = not rng.chance(0.3)
         if r < 0.5:  # setter
@@ -403,7 +433,9 @@ def render(kind, seed, probes, steps):
     toks += [str(p) if kind in DISCRETE else f2h(p) for p in probes]
     toks.append(str(len(steps)))
     for s in steps:
-        if s[0] == "new":
+        if s[0] in ("default", "clone", "copy"):
+            toks.append(s[0])
+        elif s[0] == "new":
             toks += ["new"] + [show_arg(t, v) for t, v in zip(sig, s[1])]
         elif s[0] == "set":
             toks += ["set", str(s[1]), show_arg(sig[s[1]], s[2])]
@@ -415,10 +447,26 @@ def render(kind, seed, probes, steps):
 NAN = float("nan")
 
 
+def corpus_default():
+    """Construction route `Default` for every distribution (round-8 seed C18r: ChiSquared::default() built with
+    `Gamma::default()` as sampler): observe right after `default`, after `clone` and `copy`, then every setter to its own
+    default value (heals a stale cache, must change nothing), a fresh `default`, an update, and `default` once more."""
+    out = []
+    for kind in ["chisquared"] + [k for k in KINDS if k != "chisquared"]:
+        sig = SPEC[kind][0]
+        dv = DEFAULTS[kind]
+        steps = [("default",), ("clone",), ("copy",)]
+        steps += [("set", i, dv[i]) for i in range(len(sig))]
+        steps += [("default",), ("upd", [float(v) for v in dv]), ("default",), ("clone",)]
+        out.append(render(kind, 20260926, [0, 1, 15] if kind in DISCRETE else [0.5, 1.0, 3.0], steps))
+        out.append(render_bulk(kind, 77, 1000, 0, None))
+    return out
+
+
 def corpus():
     P = [0.5, 1.0, 3.0]
     PI = [0, 1, 15]
-    return [
+    return corpus_default() + [
         # F32: ChiSquared::set_dof kept the old Gamma sampler
         render("chisquared", 7, P, [("new", [2]), ("set", 0, 50), ("upd", [3.0])]),
         # F35: Uniform / DiscreteUniform update validated the new lower bound against the old upper bound
@@ -632,7 +680,10 @@ def gen_boundary(cover):
 
 
 def render_bulk(kind, seed, rows, cols, args):
-    return " ".join(["bulk", kind, str(seed), str(rows), str(cols)] + [show_arg(t, v) for t, v in zip(SPEC[kind][0], args)])
+    """args = None: the object is `X::default().clone()`"""
+    if args is None:
+        return " ".join(["bulk", kind, str(seed), str(rows), str(cols), "default"])
+    return " ".join(["bulk", kind, str(seed), str(rows), str(cols), "new"] + [show_arg(t, v) for t, v in zip(SPEC[kind][0], args)])
 
 
 def gen_bulk(rng, tier, cover):
@@ -645,8 +696,12 @@ def gen_bulk(rng, tier, cover):
             lines.append(render_bulk(kind, rng.randint(0, 2 ** 32), n, 0, BULK_PARAMS[kind]))
     for kind, (r, c) in zip(cheap, [(256, 128), (200, 200), (1, 32768), (181, 181)]):
         lines.append(render_bulk(kind, rng.randint(0, 2 ** 32), r, c, BULK_PARAMS[kind]))
+    for kind in KINDS:  # sample_n / sample_matrix straight after Default
+        lines.append(render_bulk(kind, rng.randint(0, 2 ** 32), rng.randint(200, 2000), 0, None))
+        lines.append(render_bulk(kind, rng.randint(0, 2 ** 32), rng.randint(5, 40), rng.randint(5, 40), None))
     if tier != "quick":
         for kind in KINDS:
+            lines.append(render_bulk(kind, rng.randint(0, 2 ** 32), 40000, 0, None))
             lines.append(render_bulk(kind, rng.randint(0, 2 ** 32), 40000, 0, BULK_PARAMS[kind]))
             lines.append(render_bulk(kind, rng.randint(0, 2 ** 32), 300, 150, BULK_PARAMS[kind]))
     cover["bulk-lines"] = len(lines)
@@ -680,7 +735,9 @@ def parse_request(line):
     for _ in range(n):
         op = t[i]
         i += 1
-        if op == "new":
+        if op in ("default", "clone", "copy"):
+            steps.append((op,))
+        elif op == "new":
             args = []
             for ty in sig:
                 args.append(h2f(t[i]) if ty == "f" else int(t[i]))
@@ -737,8 +794,8 @@ def parse_steps(reply):
 
 
 def opname(kind, s):
-    if s[0] == "new":
-        return "new"
+    if s[0] in ("new", "default", "clone", "copy"):
+        return s[0]
     if s[0] == "set":
         return "set_" + SPEC[kind][1][s[1]]
     return "update"
@@ -766,6 +823,11 @@ def oracle_bulk(idx, line, rep, fails):
     if st != "ok" or "A" not in toks:
         fails.append(Failure(idx, "%s:%s:no-reply" % (kind, what), "bulk draw of %d values did not return: %s" % (n, rep[:80])))
         return
+    twin = None
+    if "T" in toks:
+        ti = toks.index("T")
+        twin = toks[ti + 1:]
+        toks = toks[:ti]
     a = toks.index("A")
     head, tail = toks[:a], toks[a + 1:]
     if int(head[0]) != n:
@@ -773,6 +835,12 @@ def oracle_bulk(idx, line, rep, fails):
         return
     d1, s1 = head[1], head[-1]
     d2, s2, d3, s3 = tail
+    if twin is not None and twin != [d1, s1]:
+        fails.append(Failure(idx, "%s:default:twin-draws" % kind,
+                             "%s of n = %d values on `%s::default().clone()` differs from the same call on the twin `new(parameters of the default object)` "
+                             "from the same seed (digest / generator state %s %s vs twin %s): the default object does not carry the sub-sampler the constructor installs" % (
+                                 what, n, kind, d1, s1, " ".join(twin)), " ".join(twin)))
+        return
     if d2 != d1 or s2 != s1:
         fails.append(Failure(idx, "%s:%s:reproducible" % (kind, what),
                              "two %s draws of n = %d values from the same seed differ (digest %s vs %s, generator state after %s vs %s)" % (
@@ -803,7 +871,9 @@ def oracle(lines, impl):
             fails.append(Failure(idx, "%s:%s:%s" % (kind, opname(kind, s), what), "step %d (%s): %s" % (k, " ".join(map(str, s)), msg), expected))
 
         for k, (s, (panicked, ctor, obs)) in enumerate(zip(steps, res)):
-            if cur is None and s[0] != "new":
+            if s[0] == "default":
+                s = ("default", list(DEFAULTS[kind]))  # documented: Default = new(default parameters)
+            if cur is None and s[0] not in ("new", "default"):
                 continue
             # ---- "alike": a setter / bulk update accepts a value iff the constructor accepts the resulting
             # parameter list (decided by the Rust constructor itself; this is the only rule applied to NaN)
@@ -815,8 +885,10 @@ def oracle(lines, impl):
             # ---- what the call must do
             judge = True
             partial = None
-            if s[0] == "new":
+            if s[0] in ("new", "default"):
                 cand = list(s[1])
+            elif s[0] in ("clone", "copy"):
+                cand = list(cur)  # a clone / copy changes nothing and cannot panic
             elif s[0] == "set":
                 cand = list(cur)
                 cand[s[1]] = s[2]
@@ -859,7 +931,7 @@ def oracle(lines, impl):
                 break
             if judge and not panicked:
                 exp = cand
-            elif s[0] in ("new", "set") or (judge and partial is None):
+            elif s[0] in ("new", "set", "default", "clone", "copy") or (judge and partial is None):
                 exp = cur  # a rejected constructor / setter leaves the object untouched
             else:
                 exp = None
